@@ -53,10 +53,10 @@ extern int mpt_path_del(MPT_STRUCT(path) *path)
 		MPT_STRUCT(array) arr;
 		arr._buf = (void *) path->base;
 		pos = (--arr._buf)->_used;
-		if (len > pos) {
+		if ((path->off + len) > pos) {
 			return MPT_ERROR(BadValue);
 		}
-		pos = len;
+		pos = path->off + len;
 		if (!(data = mpt_array_slice(&arr, 0, pos))) {
 			return MPT_ERROR(BadOperation);
 		}
